@@ -120,8 +120,10 @@ def run_chunk(arg):
         for c in spacecmds: sp.space(c)
         _sp[key] = sp
     out = []
-    for (pid, line, src, tag) in progs:
+    for it in progs:
+        (pid, line, src, tag) = it[:4]
         try:
+            if len(it) > 4: sp.send(it[4])
             r = sp.send(line)
         except yv.WorkerDied as e:
             r = dict(id=pid, crash=e.rc, stderr=e.err[-2000:]); sp.restart()
@@ -208,6 +210,41 @@ def main():
                                     fam.append(prog(pid(), src, astp, "s", "", "", tag))
                                     if not lazy and xs == "." and ys == ".":
                                         fam.append(prog(pid(), src, astp, "m", "", "", tag))
+    # window family: fixed-length runs of 5..7 (8) one-character nodes {literal, '.', class} - longer than the 4-byte atom, so the atom extractor slides its
+    # window, trims dots at its ends and must bind the atom to the right forward / backward code; also inside a group, an alternation branch and a counted repeat
+    winj = []
+    letters = "abcdefgh"
+    for nn in ((5, 6, 7) if quick else (5, 6, 7, 8)):
+        for mid in itertools.product("LDC", repeat=nn - 2):
+            shape = "L" + "".join(mid) + "L"
+            if shape.count("L") < 3: continue
+            srcp, astp, inst = [], [], []
+            for i, k in enumerate(shape):
+                ch = letters[i]
+                if k == "L": srcp.append(ch); astp.append("B %02x ff 0" % ord(ch)); inst.append(("L", ord(ch)))
+                elif k == "D": srcp.append("."); astp.append(cls_hex(set(range(256)) - {0x0a})); inst.append(("D", 0))
+                else: srcp.append("[%sz]" % ch); astp.append(cls_hex({ord(ch), ord("z")})); inst.append(("C", ord(ch)))
+            def make(fill):
+                return bytes(b if k == "L" else fill if k == "D" else (b if fill & 1 else ord("z")) for k, b in inst)
+            bufs = set()
+            base = [make(ord("x")), make(ord("a")), make(0x0a), make(0x00)]
+            for v in base:
+                for pre in (b"", b"-", b"ab"):
+                    for post in (b"", b"a"):
+                        bufs.add(pre + v + post)
+                bufs.add(v + v); bufs.add(v[:-1] + v); bufs.add(v[:3] + v)
+            v = base[0]
+            for i, (k, b) in enumerate(inst):
+                if k != "D": bufs.add(b"-" + v[:i] + bytes([b ^ 0x04]) + v[i + 1:] + b"a")
+            bl = "B list " + " ".join(x.hex() for x in sorted(bufs))
+            body_src, body_ast = "".join(srcp), " ".join(". " + a for a in astp[:-1]) + " " + astp[-1]
+            variants = [(body_src, body_ast, "")]
+            if nn <= 6:
+                variants += [("(" + body_src + ")", body_ast, ":group"), ("(" + body_src + "|qqqq)", "| " + body_ast + " . B 71 ff 0 . B 71 ff 0 . B 71 ff 0 B 71 ff 0", ":alt"),
+                             ("-(" + body_src + "){1,2}", ". B 2d ff 0 R 1 2 " + body_ast, ":repeat")]
+            for (src, a, vt) in variants:
+                pr = prog(pid(), src, a, "s", "", "", "window-family" + vt)
+                winj.append(pr + (bl,))
     lb = 5 if quick else 6
     sp_main = ["B all %s %d" % (ALPHA.hex(), lb)]
     sp4 = ["B all %s %d" % (ALPHA.hex(), 4 if quick else 5)]
@@ -215,6 +252,7 @@ def main():
     sp_wide = ["B units %s %d %s %s" % ("".join("%02x00" % c for c in ALPHA) + "6161", 3 if quick else 4, "61", "61")]
     chunks = [("plain", sp_main, c) for c in yv.chunked(jobs, 100)] + [("plain", sp4, c) for c in yv.chunked(jobs4, 300)]
     chunks += [("plain", sp_fam, c) for c in yv.chunked(fam, 100)] + [("plain", sp_wide, c) for c in yv.chunked(widej, 100)]
+    chunks += [("plain", [], c) for c in yv.chunked(winj, 100)]
     if quick:
         chunks += [("asan", ["B all %s 4" % ALPHA.hex()], c) for c in yv.chunked(jobs[::5], 200)]
     for v in ("plain", "asan"): yv.space_exe(v)
@@ -243,7 +281,7 @@ def main():
     ck.cov["programs_hitting_fiber_limit"] = limited
     ck.cov["rejected_by_compiler"] = rejected
     ck.cov["rule"] = ("programs = all regex ASTs with <=3 nodes (x greedy/lazy x /i /s x nocase, fullword, wide, ascii wide, and as `matches` operand), all ASTs "
-                      "with 4 nodes (greedy%s), the families P(X){n,m}Q and P X{n,m} Q Y{k,l} R; inputs = every buffer over {a,b,A,\\n,space,1} with length <= %d (<=%d for 4 nodes), "
+                      "with 4 nodes (greedy%s), the families P(X){n,m}Q and P X{n,m} Q Y{k,l} R, the window family (runs of 5..7 (8) one-character nodes {literal, dot, class}, plain / grouped / as alternation branch / counted, each with its own instance and near-miss buffers); inputs = every buffer over {a,b,A,\\n,space,1} with length <= %d (<=%d for 4 nodes), "
                       "{a,b}^<=10 for the family, 2-byte units for wide; non-trivial = (program, buffer) pairs with an expected match") % (
                           "" if quick else " and lazy; 5 nodes over a reduced leaf set", lb, 4 if quick else 5)
     ck.assumptions += ["a lazy expression that can also match the empty string may report length 0 at an offset that has a non-empty match",
